@@ -30,6 +30,8 @@ type C02Case struct {
 	// BigFirst (kind "dup"): the well-signed FIRST assertion carries this many attribute values and, with EncFirst,
 	// travels encrypted — more elements than the signature library's traversal budget (1000) once decrypted.
 	// Whatever the library does with such a tree, the bad signature of the assertion after it stays fatal.
+	// BOM: the serialised message starts with a UTF-8 byte order mark (legal, and accepted by the library).
+	BOM      bool `json:"bom,omitempty"`
 	BigFirst int  `json:"bigFirst,omitempty"`
 	EncFirst bool `json:"encFirst,omitempty"`
 }
@@ -135,7 +137,8 @@ func genC02(t *rapid.T) C02Case {
 		// SubjectKeyIdentifier / serial number of a certificate that IS in the store
 		c.Signer = h.CertRef{Key: "A", Window: "wide"}
 	}
-	c.Tamper = rapid.SampledFrom([]string{"none", "none", "none", "none", "none", "content", "digest", "sigvalue", "extra-ref-first", "extra-ref-last"}).Draw(t, "tamper")
+	c.Tamper = rapid.SampledFrom([]string{"none", "none", "none", "none", "none", "content", "digest", "sigvalue", "extra-ref-first", "extra-ref-last", "content-feff", "content-zwsp", "content-shy"}).Draw(t, "tamper")
+	c.BOM = rapid.IntRange(0, 3).Draw(t, "bom") == 0
 	c.ClockPos = rapid.SampledFrom(clockPositions).Draw(t, "clockPos")
 	c.Method = methodFor(c.Signer.Key, rapid.IntRange(0, 3).Draw(t, "method"))
 	c.C14N = rapid.SampledFrom(h.C14Ns).Draw(t, "c14n")
@@ -267,7 +270,7 @@ func finishC02(c *C02Case, pick int, fail func(error)) {
 		return
 	}
 	tamper(root, c.Kind, c.Tamper)
-	c.Encoded = h.Encode(h.Serialize(root, h.Layout{}), h.Presentation{})
+	c.Encoded = h.Encode(h.Serialize(root, h.Layout{BOM: c.BOM}), h.Presentation{})
 }
 
 func findFirst(el *etree.Element, tag string) *etree.Element {
@@ -314,6 +317,21 @@ func tamper(root *etree.Element, kind, how string) {
 		return
 	}
 	switch how {
+	case "content-feff", "content-zwsp", "content-shy":
+		// an INVISIBLE character slipped into signed text after signing (U+FEFF is also what a byte order mark is
+		// made of; a decoder that "cleans" the input must not clean the alteration away)
+		ch := map[string]string{"content-feff": "\uFEFF", "content-zwsp": "\u200B", "content-shy": "\u00AD"}[how]
+		signed := root
+		if kind == "assertion" {
+			signed = findFirst(root, "Assertion")
+		}
+		if n := findFirst(signed, "NameID"); n != nil {
+			t := n.Text()
+			n.SetText(t[:len(t)/2] + ch + t[len(t)/2:])
+		} else if n := findFirst(signed, "Issuer"); n != nil {
+			t := n.Text()
+			n.SetText(t[:len(t)/2] + ch + t[len(t)/2:])
+		}
 	case "content":
 		signed := root
 		if kind == "assertion" {
@@ -380,7 +398,7 @@ func judgeC02(c C02Case, newSP func() *saml2.SAMLServiceProvider) h.Outcome {
 	}
 	trivial := c.Signer.Key != "A" && c.KeyInfo == "own" && c.ClockPos == "inside" && c.Tamper == "none" && inStore(c.SP.Store, c.Signer)
 	o.NonTrivial = !trivial
-	o.Classes = []string{"kind:" + c.Kind, "keyinfo:" + c.KeyInfo, "tamper:" + c.Tamper, "clock:" + c.ClockPos, "window:" + c.Signer.Window,
+	o.Classes = []string{"kind:" + c.Kind, "keyinfo:" + c.KeyInfo, "tamper:" + c.Tamper, fmt.Sprintf("bom:%v", c.BOM), "clock:" + c.ClockPos, "window:" + c.Signer.Window,
 		fmt.Sprintf("store:%d", len(c.SP.Store)), fmt.Sprintf("honoured:%v", hon), "signer:" + c.Signer.Key}
 	if !hon {
 		o.Classes = append(o.Classes, "reject:"+strings.SplitN(why, ":", 2)[0])
@@ -583,9 +601,9 @@ func TestC02_Grid(t *testing.T) {
 	}
 	// attacker key, and tampering, at every kind
 	for _, kind := range []string{"response", "assertion", "both", "dup", "LogoutRequest", "LogoutResponse"} {
-		for _, tm := range []string{"content", "digest", "sigvalue", "extra-ref-first", "extra-ref-last", "none"} {
+		for _, tm := range []string{"content", "digest", "sigvalue", "extra-ref-first", "extra-ref-last", "none", "content-feff", "content-zwsp", "content-shy", "content-feff+bom", "none+bom", "content+bom"} {
 			for _, ki := range []string{"own", "absent"} {
-				c := C02Case{SP: h.BaseSP(), Kind: kind, Signer: h.CertRef{Key: "T1", Window: "wide"}, KeyInfo: ki, Tamper: tm, ClockPos: "inside", Method: h.RSAMethods[1], C14N: h.C14Ns[0]}
+				c := C02Case{SP: h.BaseSP(), Kind: kind, Signer: h.CertRef{Key: "T1", Window: "wide"}, KeyInfo: ki, Tamper: strings.TrimSuffix(tm, "+bom"), BOM: strings.HasSuffix(tm, "+bom"), ClockPos: "inside", Method: h.RSAMethods[1], C14N: h.C14Ns[0]}
 				c.SP.Store = []h.CertRef{c.Signer}
 				finishC02(&c, 0, func(err error) { t.Fatalf("harness: %v", err) })
 				cases = append(cases, c)
